@@ -346,6 +346,10 @@ impl BroCatli {
                 } else {
                     return BroCatliResult::BrotliFileNotCraftedForConcatenation;
                 };
+                if (varlen_offset + 7) / 8 > usize::from(new_stream_pending.num_bytes_read) {
+                    // the first meta-block header reaches beyond the look-ahead: it cannot be realigned
+                    return BroCatliResult::BrotliFileNotCraftedForConcatenation;
+                }
                 let mut bytes_so_far = 0u64;
                 for index in 0..usize::from(new_stream_pending.num_bytes_read) {
                     bytes_so_far |=
@@ -439,14 +443,13 @@ impl BroCatli {
                 if usize::from(new_stream_pending.num_bytes_read)
                     < new_stream_pending.bytes_so_far.len()
                 {
-                    {
-                        let dst = &mut new_stream_pending.bytes_so_far
-                            [usize::from(new_stream_pending.num_bytes_read)..];
-                        let to_copy = min(dst.len(), in_bytes.len() - *in_offset);
-                        dst[..to_copy]
-                            .clone_from_slice(in_bytes.split_at(*in_offset).1.split_at(to_copy).0);
-                        *in_offset += to_copy;
-                        new_stream_pending.num_bytes_read += to_copy as u8;
+                    // take exactly the look-ahead that sufficient() asks for, so that the decision
+                    // made on the header cannot depend on how the input happens to be sliced
+                    while !new_stream_pending.sufficient() && *in_offset < in_bytes.len() {
+                        new_stream_pending.bytes_so_far
+                            [usize::from(new_stream_pending.num_bytes_read)] = in_bytes[*in_offset];
+                        *in_offset += 1;
+                        new_stream_pending.num_bytes_read += 1;
                     }
                     self.new_stream_pending = Some(new_stream_pending); // write back changes
                 }
